@@ -1600,6 +1600,9 @@ func batchScenarios() []btScenario {
 		out = append(out, btScenario{Items: 2*c + 1, Concurrency: c, Retries: 1, Payload: "results", CancelIn: -1, ErrResult: -1, Special: "free-slot-takes-next-item"})
 	}
 	out = append(out, btScenario{Items: 0, Retries: 1, Payload: "results", CancelIn: -1, ErrResult: -1, Special: "empty-batch-post-error"})
+	for _, c := range []int{0, 2} {
+		out = append(out, btScenario{Items: 2, Concurrency: c, Retries: 2, Fail: []int{1, 0}, Payload: "results", CancelIn: -1, ErrResult: -1, WaitMs: 300})
+	}
 	out = append(out, btScenario{Items: 0, Payload: "nil", CancelIn: -1, ErrResult: -1, Retries: 1}, btScenario{Items: 1, Payload: "single", CancelIn: -1, ErrResult: -1, Retries: 1, Fail: []int{0}},
 		btScenario{Items: 0, Payload: "results", CancelIn: -1, ErrResult: -1, Retries: 1, PostAction: "custom"})
 	return out
@@ -1888,8 +1891,19 @@ func runBatchScenario(sc btScenario, prop string) string {
 			gotItems, gotResults = items, results
 			return Action(sc.PostAction), nil
 		})
+		runStart := time.Now()
 		act, err := Run(ctx, b, NewSharedStore())
 		close(finished)
+		if wants(prop, "C20") && sc.WaitMs >= 300 {
+			mu.Lock()
+			first := spans[0]
+			mu.Unlock()
+			if len(first) > 0 {
+				if d := first[0].start.Sub(runStart); d >= time.Duration(sc.WaitMs)*time.Millisecond/2 {
+					return fmt.Sprintf("C20: the first attempt of item 0 started %v after the run began (wait %dms): there is no wait before a first attempt", d, sc.WaitMs)
+				}
+			}
+		}
 		if sc.MaxProcs > 0 && wants(prop, "C08") {
 			for i, r := range gotResults {
 				if r.IsError() && strings.Contains(r.Error().Error(), "blocking executions got in flight") {
